@@ -28,6 +28,7 @@ type C01Scenario struct {
 	Prime   uint64       `json:"prime"`
 	RW      int          `json:"rw_ratio"`
 	Clients [][]semRound `json:"clients"`
+	Crowd   int          `json:"crowd,omitempty"` // > 0: one writer and this many readers of one key, rwRatio 65-200
 }
 
 func drawC01(rt *rapid.T) interface{} {
@@ -37,6 +38,17 @@ func drawC01(rt *rapid.T) interface{} {
 	sc.RW = rapid.SampledFrom([]int{1, 2, 3, 10}).Draw(rt, "rw")
 	nk := rapid.IntRange(1, 3).Draw(rt, "nkeys")
 	keyBase := rapid.IntRange(0, 7).Draw(rt, "keybase") // which typed keys are in play (see hx.KeyOf)
+	if hx.Rare(rt, hx.Pick(300, 60), "crowd") {
+		// a crowd: more tokens and more queued readers than any batch size one might think of (one writer, 66-150 readers, one key)
+		sc.RW = rapid.SampledFrom([]int{65, 100, 200}).Draw(rt, "crowdrw")
+		sc.Crowd = rapid.SampledFrom([]int{66, 90, 150}).Draw(rt, "crowdn")
+		sc.Clients = append(sc.Clients, []semRound{{Write: true, Key: keyBase, Ctx: "bg", Hold: 3}})
+		for i := 0; i < sc.Crowd; i++ {
+			sc.Clients = append(sc.Clients, []semRound{{Key: keyBase, Ctx: "bg", Hold: rapid.IntRange(0, 2).Draw(rt, "crowdhold")}})
+		}
+		sc.Knobs = hx.DrawKnobs(rt, nil)
+		return sc
+	}
 	nc := rapid.IntRange(2, hx.Pick(6, 8)).Draw(rt, "nclients")
 	for i := 0; i < nc; i++ {
 		n := rapid.IntRange(1, hx.Pick(4, 7)).Draw(rt, "rounds")
@@ -80,6 +92,8 @@ type c01State struct {
 	waiters []*semWaiter // one per in-flight or held acquisition
 	ev      int64
 	obs     int64
+	// releasing: per key, the callers that are inside Release right now
+	releasing map[int]int
 }
 
 func (st *c01State) key(k int) *semKey {
@@ -269,26 +283,68 @@ func runC01(t *testing.T, sci interface{}, keepLog bool) *hx.Outcome {
 						ks.readers--
 					}
 					me.EnterAPI("Release")
+					if st.releasing == nil {
+						st.releasing = map[int]int{}
+					}
+					st.releasing[r.Key]++
 					if r.Write {
 						st.m.ReleaseWrite(hx.KeyOf(r.Key), sem)
 					} else {
 						st.m.ReleaseRead(hx.KeyOf(r.Key), sem)
 					}
+					st.releasing[r.Key]--
 					me.ExitAPI()
 					ks.held -= weight
 					st.remove(w)
 					s.Logf("c%d release key=%d w=%v", ci, r.Key, r.Write)
 					simrt.Yield()
+					// hand-off "at once": once Release has returned, every queued caller that fits has been admitted. Looked at after a
+					// yield (the scheduler has then refreshed which tasks are blocked: a task woken natively a moment ago still looks
+					// blocked to the task that woke it). The condition is an invariant of every instant, so the yield costs nothing. Judged only
+					// when nothing is in transit on the key - nobody else is inside Release, no caller whose context has ended is on
+					// its way out of Acquire, the container's queue consists of the blocked callers alone - and every one of them
+					// fits into the free tokens: then whoever is the head fits.
+					var held, nw int
+					var present bool
+					s.NoYield(func() { held, nw, present = semap.VerifKeyState(st.m, hx.KeyOf(r.Key)) })
+					if present && !s.Failed() && st.releasing[r.Key] == 0 {
+						nb, allFit := 0, true
+						for _, x := range st.waiters {
+							if x.active && x.key == r.Key && !x.task.Blocked() && x.ctx.Ended() {
+								allFit = false // leaving after its context ended: it may still be queued, or about to re-notify
+							}
+							if x.active && x.key == r.Key && x.task.Blocked() && x.task.WaitDesc() != "mutex" {
+								// (blocked on the container's mutex = not queued yet; whoever holds that mutex is in transit and is
+								// either counted in the queue without being blocked, or changes nothing that matters here)
+								nb++
+								if x.weight > st.rw-held {
+									allFit = false
+								}
+							}
+						}
+						if nb > 0 && nb == nw && allFit {
+							detail := ""
+							for _, x := range st.waiters {
+								if x.key == r.Key {
+									detail += fmt.Sprintf(" [%s weight=%d inAcquire=%v blocked=%v wait=%q ctxEnded=%v]", x.task.Name, x.weight, x.active, x.task.Blocked(), x.task.WaitDesc(), x.ctx.Ended())
+								}
+							}
+							s.Fail("waiter-fits-but-blocked", "key %d: Release returned, %d of %d token(s) are held, and all %d queued caller(s) fit into the rest, yet they stay blocked (not admitted at once);%s", r.Key, held, st.rw, nb, detail)
+						}
+					}
 				}
 			}))
 		}
 		hx.WaitDone(s, ts...)
+		if sc.Crowd > 0 {
+			s.Count("crowd-of-more-than-64-readers")
+		}
 		if n := semap.VerifEntries(st.m); n != 0 {
 			s.Fail("residue-entry", "every holder released and nobody waits, yet the container keeps %d entr(y/ies)", n)
 		}
 	}
 
-	res := hx.RunSim(t, sc.Knobs.Config(keepLog, 60000), func(s *simrt.Sim) { s.OnQuiescent = observe }, main)
+	res := hx.RunSim(t, sc.Knobs.Config(keepLog, 60000+3000*sc.Crowd), func(s *simrt.Sim) { s.OnQuiescent = observe }, main)
 	o := hx.FromResult(res)
 	if o.Class == "" && res.Stuck {
 		o.Class, o.Msg = "stuck", "callers never finished although every holder releases: "+hx.Unfinished(res)
@@ -318,9 +374,9 @@ func TestC01(t *testing.T) {
 		Run:         runC01,
 		Real:        []string{"syncx/semap (SemMap, WideSemMap modulo and xxhash; simgen-transformed)", "remap", "container/list"},
 		Stubs:       []string{"sync (simsync.Mutex)", "context.Context (hx.SimCtx: cancellation and deadline are simulator events)", "goroutine scheduling (simrt)", "select choice (simulator-ordered)"},
-		Rule: "scenario = map variant x shard count x rwRatio x 2-6 clients x 1-4 rounds of Acquire{Read|Write}(ctx,key)/hold/Release with ctx in {background, pre-cancelled, cancelled by a canceller task, simulated deadline} x scheduler knobs/tape; " +
+		Rule: "scenario = map variant x shard count x rwRatio x 2-6 clients x 1-4 rounds of Acquire{Read|Write}(ctx,key)/hold/Release with ctx in {background, pre-cancelled, cancelled by a canceller task, simulated deadline} (about 1 in 300, thorough 1 in 60: one writer and 66-150 readers of one key at rwRatio 65-200) x scheduler knobs/tape; " +
 			"non-trivial = >=2 tasks and >=1 context switch; distinct = distinct event-log hash",
-		Probes:      []string{"acquire-succeeded-with-ended-ctx", "acquire-failed-ctx", "acquire-granted-after-blocking", "acquirer-observed-blocked", "ctx-ended"},
+		Probes:      []string{"acquire-succeeded-with-ended-ctx", "acquire-failed-ctx", "acquire-granted-after-blocking", "acquirer-observed-blocked", "ctx-ended", "crowd-of-more-than-64-readers"},
 		Assumptions: []string{"each client holds at most one key at a time (so the harness itself cannot deadlock)", "arrival order is observed at API-quiescent instants; simultaneous arrivals are not ordered by the oracle"},
 	})
 }
